@@ -3,11 +3,8 @@
 EXTENDS MC_Images
 
 CorPosSim == [f \in {"eeprom", "ow"} |-> IF f = "eeprom" THEN 1..21 ELSE 1..24]
-EeSim == <<{EeCase(v, ch, sp, p, a, fill, TRUE) : v \in {0, 1}, ch \in {0, 80, 125}, sp \in {0, 2}, p \in 0..9,
-                                                a \in {A1, A2}, fill \in {0, 255}}>>
-
+EeSim == <<{<<v, ch, sp, p, a, fill, TRUE>> : v \in {0, 1}, ch \in {0, 80, 125}, sp \in {0, 2}, p \in 0..9, a \in {A1, A2}, fill \in {0, 255}}>>
 OwSim == OwCases(<<{0}, 0..99, {0, 1, 2, 3, 4, 5, 30, 68, 70, 72, 95}, {0, 1, 2, 3, 20}>>, 17, 112, TRUE)
-
-CasesSim == Cases(EeSim, OwSim, LhQuick, LhFileQuick, <<{DeckCase(a, b, n, 3) : a \in {1, 3, 127, 0, 85}, b \in 0..3, n \in {0, 5, 18}}>>)
+CasesSim == Cases(EeSim, OwSim, LhQuick, LhFileQuick, <<{<<a, b, n, 3>> : a \in {1, 3, 127, 0, 85}, b \in 0..3, n \in {0, 5, 18}}>>)
 ValsSim == {0, 1, 2, 3, 5, 74, 128, 255}
 ====
